@@ -60,6 +60,9 @@ def _stages(e: ast.AST, fn_node=None):
                 e = ds[0]
                 hops += 1
                 continue
+        if isinstance(e, ast.Subscript) and isinstance(e.slice, ast.Constant) and isinstance(e.slice.value, str):
+            e = e.value              # a column picked out of a (grouped) frame: the value keeps flowing
+            continue
         if not isinstance(e, ast.Call):
             break
         nm = call_name(e)
@@ -118,6 +121,15 @@ def rule_r1(ctx) -> List[R.Inst]:
         insts.append(R.ok(rid, "pipeline:stages", file, rets[0].lineno, idiom=" -> ".join(want)))
     else:
         missing = [w for w in want if w not in core]
+        # whatever the way the active times are obtained: per bpm value they are ADDED UP, and the largest total wins
+        if "groupby" in names and "idxmax" in names:
+            gi = names.index("groupby")
+            red = [x for x in names[gi + 1:names.index("idxmax")] if x in ("sum", "max", "min", "mean", "median", "count", "size", "first", "last", "prod", "nunique", "std")]
+            if red and red != ["sum"]:
+                insts.append(R.viol(rid, "pipeline:stages", file, rets[0].lineno,
+                                    f"the active time of a bpm value is the SUM of its intervals; the groups are reduced with '{red[0]}' — a bpm that "
+                                    f"is active in several stretches is judged by one of them only", construct=f"groupby -> {' -> '.join(red)} -> idxmax"))
+                return insts
         if len(missing) >= 4:
             # not this pipeline with a stage lost, but another way of computing the active times: not read here
             insts.append(R.undec(rid, "pipeline:stages", file, rets[0].lineno,
